@@ -8,9 +8,12 @@ import YaegiVerif.Proofs.C15Import
   C15 — package-level variables initialise in dependency order; then init functions in source
   order; then main. Property theorems.
 
-  Full statement (not true of the unchanged code, see the witnesses):
+  Full statement (not true of the code, see the witnesses):
     for every package p,  runY facts p = Spec.runGo p.
   Proved: `init_order_partial` on the decidable domain `dom`, for the facts read from the source.
+  Since the repair of F15 (`genGlobalVarDecl` restarts its scan after every append) the ordering
+  loop itself is proved equal to the specification's for every dependency graph (`orderY_eq_spec`),
+  and `dom` only speaks about which dependencies are collected.
 -/
 namespace YaegiVerif.Props.C15
 open YaegiVerif YaegiVerif.VarInit YaegiVerif.Spec.InitOrder YaegiVerif.Proofs.C15
@@ -85,78 +88,76 @@ theorem orderGo_respects (g : Deps) (l : List Nat) (h : orderGo g = .ok l) : Res
 
 /-! ### yaegi's order = the specification's order -/
 
-/-- **On the same dependency graph the pass loop gives the specification's order whenever no
-    specification is overtaken** (decidable: at every append of a pass, nothing skipped earlier in
-    that pass is ready). Includes the error case: both fail or both succeed. -/
-theorem orderY_eq_spec_partial (g : Deps) (h : noOvertake g = true) : orderY g = orderGo g :=
-  loopY_eq_loopGo g _ _ _ _ h (by simp) (by simp)
+/-- **On the same dependency graph the loop of `genGlobalVarDecl` gives the specification's order**
+    — for every graph, no side condition (before the repair of F15: only when no specification was
+    overtaken inside a pass). Includes the error case: both report a loop or both succeed with the
+    same order. -/
+theorem orderY_eq_spec (g : Deps) : orderY g = orderGo g :=
+  loopY_eq_loopGo g _ _ _ _ (by simp) (by simp)
 
-/-- **…and only then**: when the pass loop succeeds, its order is the specification's order
-    *if and only if* no specification was overtaken. The class `overtake` (F15) is therefore exactly
-    the set of graphs on which the two orders differ. -/
-theorem orderY_eq_spec_iff (g : Deps) (l : List Nat) (h : orderY g = .ok l) :
-    orderGo g = .ok l ↔ noOvertake g = true := by
-  constructor
-  · intro hgo
-    cases hno : noOvertake g with
-    | true => rfl
-    | false =>
-      exact absurd hgo (loopY_dirty g _ _ _ _ l hno List.nodup_range (by simp) (by simp) h)
-  · intro hno
-    rw [← orderY_eq_spec_partial g hno]; exact h
-
-/-- **accept / reject is always right for the collected graph** (no side condition): the pass loop
-    reports "variable definition loop" exactly when the specification's loop reports a cycle,
-    i.e. exactly when no order of the specifications respects the collected dependencies. -/
+/-- **accept / reject is always right for the collected graph**: the loop reports "variable
+    definition loop" exactly when the specification's loop reports a cycle, i.e. (`orderGo_perm`,
+    `orderGo_respects`, `orderY_loop_stuck`) exactly when no order of the specifications respects
+    the collected dependencies. -/
 theorem orderY_loop_iff (g : Deps) : orderY g = .loop ↔ orderGo g = .loop := by
-  constructor
-  · intro hy
-    cases hgo : orderGo g with
-    | loop => rfl
-    | fuel => exact absurd hgo (orderGo_terminates g)
-    | ok l =>
-      obtain ⟨pl, rs, h1, h2, h3⟩ := loopY_loop_stuck g _ _ _ hy
-      exact (stuck_vs_order g _ pl rs l h1 h2 h3 (by simpa using orderGo_perm g l hgo) (orderGo_respects g l hgo)).elim
-  · intro hgo
-    cases hy : orderY g with
-    | loop => rfl
-    | fuel => exact absurd hy (orderY_terminates g)
-    | ok l =>
-      obtain ⟨pl, rs, h1, h2, h3⟩ := loopGo_loop_stuck g _ _ _ hgo
-      have hp : l.Perm (List.range g.length) := by simpa using loopY_ok_perm g _ _ _ l hy
-      exact (stuck_vs_order g _ pl rs l h1 h2 h3 (by simpa using hp) (orderY_respects_collected g l hy)).elim
+  rw [orderY_eq_spec]
 
-/-- what `noOvertake` excludes is a real difference (F15): a←d, b←c, c, d -/
-theorem pass_order_witness :
+/-- …and the error is real: no order of all the specifications respects the collected dependencies -/
+theorem orderY_loop_no_order (g : Deps) (h : orderY g = .loop) (l : List Nat)
+    (hp : l.Perm (List.range g.length)) : ¬ Respects g l := by
+  intro hr
+  obtain ⟨pl, rs, h1, h2, h3⟩ := loopY_loop_stuck g _ _ _ h
+  exact stuck_vs_order g _ pl rs l h1 h2 h3 (by simpa using hp) hr
+
+/-- regression for F15 (fixed): a←d, b←c, c, d. The pass loop used to give `c d a b`
+    (`[2, 3, 0, 1]`: `b` was not reconsidered when `c` made it ready); it now gives the
+    specification's `c b d a`. -/
+example :
     let g : Deps := [[3], [2], [], []]
-    noOvertake g = false ∧ orderY g = .ok [2, 3, 0, 1] ∧ orderGo g = .ok [2, 1, 3, 0] := by decide
+    orderY g = .ok [2, 1, 3, 0] ∧ orderGo g = .ok [2, 1, 3, 0] := by decide
 
 /-- corollary: without forward references both orders are the declaration order -/
 theorem backward_only_decl_order (g : Deps) (hb : ∀ i d, d ∈ depsOf g i → d < i) :
     orderY g = .ok (List.range g.length) := by
-  have key : ∀ (k : Nat) (m : Nat), k + m = g.length →
-      pass g ((List.range' k m)) (List.range k) = (List.range g.length, []) := by
-    intro k m
-    induction m generalizing k with
-    | zero => intro h; have hk : k = g.length := by omega
-              simp [pass, hk]
+  have key : ∀ (m k f : Nat), k + m = g.length → m < f →
+      loopY g f (List.range' k m) (List.range k) = .ok (List.range g.length) := by
+    intro m
+    induction m with
+    | zero =>
+      intro k f h hf
+      have hk : k = g.length := by omega
+      cases f with
+      | zero => omega
+      | succ f => simp [loopY, pass, hk]
     | succ m ih =>
-      intro h
-      have hr : ready g (List.range k) k = true := by
-        unfold ready
-        simp only [List.all_eq_true]
-        intro d hd
-        have := hb k d hd
-        simpa using this
-      simp only [List.range'_succ, pass, hr, if_true]
-      have : List.range k ++ [k] = List.range (k + 1) := by simp [List.range_succ]
-      rw [this]
-      exact ih (k + 1) (by omega)
-  have hp : pass g (List.range g.length) [] = (List.range g.length, []) := by
-    have := key 0 g.length (by simp)
-    simpa [List.range_eq_range'] using this
-  unfold orderY loopY
-  simp [hp]
+      intro k f h hf
+      cases f with
+      | zero => omega
+      | succ f =>
+        have hr : ready g (List.range k) k = true := by
+          unfold ready
+          simp only [List.all_eq_true]
+          intro d hd
+          have := hb k d hd
+          simpa using this
+        have hk : List.range k ++ [k] = List.range (k + 1) := by simp [List.range_succ]
+        unfold loopY
+        simp only [List.range'_succ, pass, hr, if_true, hk]
+        split
+        · rename_i he
+          have hm : m = 0 := by
+            cases m with
+            | zero => rfl
+            | succ m => simp [List.range'_succ] at he
+          have : k + 1 = g.length := by omega
+          rw [this]
+        · split
+          · rename_i heq
+            have := congrArg List.length (beq_iff_eq.mp heq)
+            simp at this
+          · exact ih (k + 1) f (by omega) (by omega)
+  have := key g.length 0 (g.length + 1) (by simp) (by simp)
+  simpa [orderY, List.range_eq_range'] using this
 
 /-! ### package layer -/
 
@@ -201,7 +202,7 @@ theorem labels_eq (vars : List VarSpec) (h : vars.all single = true) (order : Li
   cases hu : (unitsOf vars)[i]? <;> cases hv : vars[i]? <;> simp_all
 
 /-- what `Eval` of a file does, for the steps read from the source: nothing if `gta` rejects the
-    package; else the variables in the order decided by the pass loop, then the `init` functions in
+    package; else the variables in the order decided by the loop of `genGlobalVarDecl`, then the `init` functions in
     source order, then `main` — or the "variable definition loop" error before anything ran -/
 theorem runY_expected (p : Pkg) :
     runY Expected.C15.execFacts p =
@@ -262,11 +263,11 @@ theorem init_order_partial (p : Pkg) (h : dom p = true) :
     runY Expected.C15.execFacts p = runGo p := by
   unfold dom at h
   simp only [Bool.and_eq_true, Bool.not_eq_true'] at h
-  obtain ⟨⟨⟨hg, hs⟩, hd⟩, ho⟩ := h
+  obtain ⟨⟨hg, hs⟩, hd⟩ := h
   rw [runY_expected, hg]
   simp only [Bool.false_eq_true, if_false]
   unfold runGo
-  rw [← orderGo_congr _ _ hd, ← orderY_eq_spec_partial _ ho]
+  rw [← orderGo_congr _ _ hd, ← orderY_eq_spec]
   cases orderY (collectDepsY p) with
   | ok o => simp [labels_eq p.vars hs o]
   | loop => rfl
@@ -359,11 +360,13 @@ theorem through_function_witness :
     runY facts pkgThroughFunc = ⟨["a", "b", "main"], false⟩ ∧ runGo pkgThroughFunc = ⟨["b", "a", "main"], false⟩ := by
   decide
 
-/-- F15 as a package: a←d, b←c, c, d with two init functions -/
+/-- F15 (fixed) as a package: a←d, b←c, c, d with two init functions. Regression: the input is now
+    in the domain of `init_order_partial` and the program logs what the specification prescribes
+    (before the repair: class `overtake`, log `c d a b init0 init1 main`). -/
 def pkgOvertake : Pkg := ⟨[v1 "a" ["d"], v1 "b" ["c"], v1 "c" [], v1 "d" []], helpers, ["init0", "init1"], some "main"⟩
-theorem overtake_witness :
-    classify pkgOvertake = "overtake" ∧
-    runY facts pkgOvertake = ⟨["c", "d", "a", "b", "init0", "init1", "main"], false⟩ ∧
+example :
+    classify pkgOvertake = "in-domain" ∧
+    runY facts pkgOvertake = ⟨["c", "b", "d", "a", "init0", "init1", "main"], false⟩ ∧
     runGo pkgOvertake = ⟨["c", "b", "d", "a", "init0", "init1", "main"], false⟩ := by
   decide
 
@@ -415,7 +418,7 @@ theorem callee_later_witness :
     runY facts pkgLate = ⟨[], true⟩ ∧ runGo pkgLate = ⟨["p", "main"], false⟩ := by
   decide
 
-/-- the full statement fails on the unchanged code -/
+/-- the full statement still fails (F14 and F15-1…7 remain) -/
 theorem full_statement_fails : ¬ ∀ p : Pkg, runY facts p = runGo p := by
   intro h
   have := h pkgThroughFunc
